@@ -125,7 +125,7 @@ def judge_known(ctx, paths):
 
 
 def run(ctx):
-    ctx.mc("PeerGrammarServerMC", ctx.pick("PeerGrammarServerMC.cfg", "PeerGrammarServerMCT.cfg"), workers=4)
+    ctx.mc("PeerGrammarServerMC", ctx.pick("PeerGrammarServerMC.cfg", "PeerGrammarServerMCT.cfg"), workers=ctx.pick(4, 8), timeout=1800)
     ctx.neg("PeerGrammarServerMC", "PeerGrammarServerNeg1.cfg", expect="I_NoIllegalHandler", workers=2)
     ctx.neg("PeerGrammarServerMC", "PeerGrammarServerNeg2.cfg", expect="I_ExcessRefused", workers=2)
     if not ctx.quick():
@@ -138,7 +138,7 @@ def run(ctx):
         "observations are taken at testing/synctest quiescence plus 1.5 s of virtual time after every step",
     ]
     ctx.cov["rule"] = ("behaviours = edge cover of the TLC state graph of PeerGrammarServerMC (BFS prefix + one transition; requests with "
-                       "<= 2 (thorough 3) deviating attributes, <= 3 requests, cancellations, completions, MaxConcurrentStreams 1 and 2) "
+                       "<= 2 deviating attributes, <= 3 requests, <= 4 (thorough 5) events incl. cancellations and completions, MaxConcurrentStreams 1 and 2) "
                        "executed step by step by a raw HTTP/2 client against a real grpc.Server; non-trivial = contains a request; "
                        "distinct by step sequence; plus seeded random sequences (2-8 steps, all ten attributes random, shuffled header "
                        "order, MaxConcurrentStreams 1-3) and seeded byte-level mutations of the serialised streams")
@@ -151,7 +151,7 @@ def run(ctx):
         st = step_of(state_text, label)
         st["_cap"] = cap_of(state_text)
         return st
-    raw = ctx.edge_cover(g, step_cap, limit=ctx.pick(2000, 40000))
+    raw = ctx.edge_cover(g, step_cap, limit=ctx.pick(2000, 25000))
     behs = []
     for b in raw:
         cap = b[0]["_cap"]
@@ -164,7 +164,7 @@ def run(ctx):
     ctx.sample(behs[len(behs) // 2])
 
     # ---- seeded random sequences over the full attribute product
-    n = ctx.pick(500, 12000)
+    n = ctx.pick(500, 8000)
     rbehs = [random_beh(ctx.rng) for _ in range(n)]
     ctx.cov["behaviours_generated"] += n
     if not phase_ok(ctx, tpath, "replay of TLC behaviours"):
@@ -176,7 +176,7 @@ def run(ctx):
     ctx.sample(rbehs[0])
 
     # ---- byte-level mutation of the serialised client streams (generic clauses only)
-    m = ctx.pick(600, 15000)
+    m = ctx.pick(600, 10000)
     pool = behs + rbehs
     mbehs = []
     for _ in range(m):
